@@ -335,11 +335,11 @@ func judgeWire(out *reg.Out, w *World, or *oracle, wire []wireRec, nerrs []strin
 	for _, e := range nerrs {
 		out.Fail("wire-codec", "%s", e)
 	}
-	// known-finding input class (decided from the case alone): the responder lacks a block of the
-	// prefix the requestor loaded locally and the first `skip` links of its own traversal reach
-	// beyond that prefix — the two peers then disagree about which blocks "the first N" are
+	// known-finding input class (decided from the case alone, see prefixBlockResent): the responder
+	// skipped a subtree of the requestor's local prefix and meets one of that prefix's blocks again
+	// beyond its skip window
 	cls := func(c string) string {
-		if or.lacksPrefix() && or.windowOverrun() {
+		if or.prefixBlockResent() {
 			return "skip-prefix-mismatch-resend"
 		}
 		return c
@@ -432,6 +432,9 @@ func GenExchange(seed int64, n int, tier string, wr *bufio.Writer) {
 	ps := []float64{0, 0.3, 0.6, 0.85, 1}
 	for i := 0; i < n; i++ {
 		mb := 2 + r.Intn(7)
+		if i%7 == 3 {
+			mb = 0 // fan family (independent sub-DAGs), used for the two-gap shape below
+		}
 		w, ws := pickWorld(r, mb, 30)
 		var loc, rem []int
 		nb := len(w.D.Cids)
@@ -480,6 +483,18 @@ func GenExchange(seed int64, n int, tier string, wr *bufio.Writer) {
 				if r.Intn(8) != 0 {
 					rem = append(rem, k)
 				}
+			}
+		}
+		if i%7 == 3 { // local start over two subtrees the responder lacks
+			if l2, r2, ok := twoGapStores(r, w); ok {
+				loc, rem = nil, nil
+				for k := range l2 {
+					loc = append(loc, k)
+				}
+				for k := range r2 {
+					rem = append(rem, k)
+				}
+				sort.Ints(rem)
 			}
 		}
 		sort.Ints(loc)
